@@ -21,8 +21,8 @@ ASSUMPTIONS = {
     "C14": ["FENCE excluded (no operand syntax implemented)"],
 }
 REQUIRED = {
-    "C04": ["programs_loaded", "renderings_compared", "pseudo_groups_judged", "inline_labels_on_expanding_pseudo", "label_refs_checked", "label_at_end", "offset_refs"],
-    "C05": ["data_images_compared", "indexed_accesses_run", "zero_indexed", "li_constants_run", "li_with_carry", "doc_example", "segment_orders_compared", "address_sweep_targets"],
+    "C04": ["programs_loaded", "renderings_compared", "pseudo_groups_judged", "inline_labels_on_expanding_pseudo", "label_refs_checked", "label_at_end", "offset_refs", "rejected_variant_assembled_first"],
+    "C05": ["data_images_compared", "indexed_accesses_run", "zero_indexed", "li_constants_run", "li_with_carry", "doc_example", "segment_orders_compared", "address_sweep_targets", "custom_data_range_cases"],
     "C14": ["round_trips", "listing_round_trips", "mn_jal", "mn_csrrw", "mn_sw", "mn_lui", "mn_ebreak", "listings_after_write_instruction", "error_messages_checked", "pipeline_view_texts_checked"],
 }
 
@@ -39,8 +39,16 @@ def plan(prop, tier, seed):
 # --------------------------------------------------------------------------------------- helpers
 
 
-def load(text, **kw):
-    s = make_riscv("single", **kw)
+def load(text, data_start=None, **kw):
+    if data_start is not None:
+        # a custom data memory whose address range starts elsewhere (public constructor arguments)
+        from architecture_simulator.simulation.riscv_simulation import RiscvSimulation
+        from architecture_simulator.uarch.riscv.riscv_architectural_state import RiscvArchitecturalState
+        from architecture_simulator.uarch.memory.memory import Memory, AddressingType
+
+        s = RiscvSimulation(state=RiscvArchitecturalState(memory=Memory(AddressingType.BYTE, 32, True, range(data_start, 2**32))))
+    else:
+        s = make_riscv("single", **kw)
     s.load_program(text)
     return s
 
@@ -165,6 +173,17 @@ def run_ast_case(case, res, prop):
     for ri in case["renders"]:
         R = A.Renderer(ri, plain=(ri == 0))
         text = R.program(ast)
+        if ri % 3 == 1:
+            # the editor re-assembles on every keystroke: a REJECTED variant of this very text (same in-line labels,
+            # one more line that refers to an unknown variable / label) is assembled first, in the same process
+            res.count("rejected_variant_assembled_first")
+            other = A.Renderer(ri + 7919).program(ast)  # ANOTHER spelling of the program (other line numbers, other in-line labels)
+            for base_ in (other, text):
+                for extra in ("la x1, no_such_variable_", "beq x0, x0, no_such_label_", ".data\nno_such: .word"):
+                    try:
+                        load(base_ + "\n" + extra)
+                    except Exception:
+                        pass
         try:
             sim = load(text)
         except Exception as e:
@@ -229,9 +248,9 @@ def _is_group_field(e):
     return False
 
 
-def check_image(sim, img, end):
+def check_image(sim, img, end, lo=None):
     m = sim.state.memory
-    lo = A.DATA_BASE
+    lo = A.DATA_BASE if lo is None else lo
     # every declared byte, guard bytes behind the segment, the first bytes of the data range (huge .zero
     # reservations are not walked byte by byte) and everything the backing store holds
     probe = set(img) | set(range(max(end, lo), max(end, lo) + 8)) | set(range(lo, min(max(end, lo), lo + 64)))
@@ -256,6 +275,11 @@ def directed_c04():
     D.append(mk([{"k": "jall", "m": "jal", "rd": 0, "label": "L0", "off": 4}, {"k": "ldv", "m": "lw", "rd": 6, "var": "v", "idx": 2}, {"k": "la", "rd": 7, "var": "buf", "idx": 1}, {"k": "brl", "m": "bne", "rs1": 6, "rs2": 7, "label": "L1", "off": None}, {"k": "stv", "m": "sh", "rs1": 6, "rs2": 7, "var": "s", "idx": 1}], {"L0": 1, "L1": 2, "end2": 5}, data))
     # load-by-name into x0 (open known finding K2: the group uses rd as address register and faults)
     D.append(mk([{"k": "ldv", "m": "lw", "rd": 0, "var": "v", "idx": 1}, {"k": "nop"}], {}, data))
+    # jal to a label more than 4 KiB away (forward and backward); branches at the edge of their +-4 KiB reach
+    far = [{"k": "jall", "m": "jal", "rd": 1, "label": "L1", "off": None}] + [{"k": "nop"}] * 1100 + [{"k": "jall", "m": "jal", "rd": 0, "label": "L0", "off": 4}, {"k": "brl", "m": "beq", "rs1": 0, "rs2": 0, "label": "Label1", "off": None}] + [{"k": "nop"}] * 1022 + [{"k": "jaln", "m": "jal", "rd": 0, "abs": 8}]
+    c = mk(far, {"L0": 0, "L1": 1101, "Label1": 1102 + 1023})
+    c["renders"] = [0, 5]
+    D.append(c)
     D.append(mk([{"k": "li", "rd": 5, "c": -1}, {"k": "li", "rd": 5, "c": 0xFFFFF800}, {"k": "mv", "rd": 3, "rs": 5}, {"k": "jaln", "m": "jal", "rd": 1, "abs": 0}, {"k": "brn", "m": "bgeu", "rs1": 1, "rs2": 2, "imm": -8}, {"k": "ecall"}], {"L0": 6, "Label1": 6, "_x2y": 3}))
     return D
 
@@ -268,7 +292,10 @@ def run_data_case(case, res):
     import random as _random
 
     data = case["data"]
-    vars_, img, end = A.layout(data)
+    ds = case.get("data_start")
+    vars_, img, end = A.layout(data, None if ds is None else (ds + 3) & ~3)
+    if ds is not None:
+        res.count("custom_data_range_cases")
     stmts = case["stmts"]
     ast = {"data": data, "stmts": stmts, "labels": {}}
     finals = []
@@ -276,11 +303,11 @@ def run_data_case(case, res):
         R = A.Renderer(ri)
         text = R.program(ast, data_first=order)
         try:
-            sim = load(text)
+            sim = load(text, data_start=ds)
         except Exception as e:
             res.violation("C05", "load-failed", "well-formed data program failed to load (%r):\n%s" % (e, text[:500]), case)
             return
-        bad = check_image(sim, img, end)
+        bad = check_image(sim, img, end, lo=None if ds is None else ds)
         res.count("data_images_compared")
         if bad:
             res.violation("C05", "data-image", "%s (.data %s .text)" % (bad, "before" if order else "after"), case)
@@ -345,7 +372,8 @@ def gen_data_case(rng):
     data = A.gen_data(rng, 6)
     while not data:
         data = A.gen_data(rng, 6)
-    vars_, img, _ = A.layout(data)
+    ds = rng.choice([0x4001, 0x4002, 0x4003, 0x4004, 0x5003, 0x8001]) if rng.random() < 0.12 else None
+    vars_, img, _ = A.layout(data, None if ds is None else (ds + 3) & ~3)
     stmts = []
     for _ in range(rng.randint(1, 10)):
         name = rng.choice(sorted(vars_))
@@ -362,7 +390,10 @@ def gen_data_case(rng):
             stmts.append({"k": "stv", "m": rng.choice(A.ST), "rs1": rs1, "rs2": rs2, "var": name, "idx": idx if use_idx else None})
         else:
             stmts.append({"k": "li", "rd": rd, "c": rng.choice(A.LI_CONSTS + [rng.getrandbits(32)])})
-    return {"kind": "data", "data": data, "stmts": stmts, "renders": [rng.getrandbits(30) + 1, rng.getrandbits(30) + 1]}
+    case = {"kind": "data", "data": data, "stmts": stmts, "renders": [rng.getrandbits(30) + 1, rng.getrandbits(30) + 1]}
+    if ds is not None:
+        case["data_start"] = ds
+    return case
 
 
 def run_li_case(case, res):
